@@ -10,7 +10,7 @@ use std::{
 use nom::{
     branch::alt,
     bytes::streaming::{tag, take_until},
-    combinator::{complete, map},
+    combinator::{complete, map, peek},
     multi::many0,
     sequence::preceded,
     IResult, Parser,
@@ -260,8 +260,15 @@ pub(crate) fn parse_response(i: &str) -> IResult<&str, Response> {
         tag("\r\n"),
     ))
     .parse(i)?;
-    let (i, (last_code, last_line)) =
-        (parse_code, preceded(tag(" "), take_until("\r\n"))).parse(i)?;
+    // The text of the last line is optional: `code [SP text] CRLF`
+    let (i, (last_code, last_line)) = (
+        parse_code,
+        alt((
+            preceded(tag(" "), take_until("\r\n")),
+            map(peek(tag("\r\n")), |_| ""),
+        )),
+    )
+        .parse(i)?;
     let (i, _) = complete(tag("\r\n")).parse(i)?;
 
     // Check that all codes are equal.
